@@ -83,6 +83,82 @@ Theorem C07_move_connected : forall n h s c p s', run n h init = Ok s -> registe
 Proof. exact run_move_connected. Qed.
 Print Assumptions C07_move_connected.
 
+(* ------------------------------------------------------------------ no hypothesis on the outcome of the run *)
+
+(* [valid n h init]: every op of h satisfies the property's preconditions in the state it is applied to
+   (op_pre: register(c,p) with c in the pool, detached, not pending, p in the pool and not in c's subtree;
+   unregister(c) with c attached; fire on a pool component; ticks of a current root; flush() on a pool
+   component) and every flush dispatches its batch in some order (op_sched: the schedule is a permutation of
+   what is queued).  Such a history runs to Ok: the model never crashes (delattr of a missing flag, set.remove
+   of a missing child) and the fuel n+1 of the _updateRoot recursion is never exhausted (parent links
+   decrease a rank, so a descending path has at most n nodes). *)
+Theorem C07_run_ok : forall n h, valid n h init -> exists s, run n h init = Ok s.
+Proof. exact run_ok. Qed.
+Print Assumptions C07_run_ok.
+
+(* and for EVERY history and every schedule, valid or not, the outcome is never Crash and never OutOfFuel
+   (it is Ok, or the model's explicit PreViolated / BadSched verdict on the hypotheses) *)
+Theorem C07_never_crashes : forall n h, run n h init <> Crash /\ run n h init <> OutOfFuel.
+Proof. exact run_safe. Qed.
+Print Assumptions C07_never_crashes.
+
+(* the theorems above, for all histories that satisfy the preconditions *)
+Theorem C07_forest_valid : forall n h, valid n h init -> exists s, run n h init = Ok s /\ forest s.
+Proof. exact valid_forest. Qed.
+Print Assumptions C07_forest_valid.
+
+Theorem C07_pending_attached_valid : forall n h, valid n h init ->
+  exists s, run n h init = Ok s /\ forall c, pend s c = true -> par s c <> c.
+Proof. exact valid_pending_attached. Qed.
+Print Assumptions C07_pending_attached_valid.
+
+Theorem C07_announce_valid : forall n h, valid n h init ->
+  exists s, run n h init = Ok s /\
+    forall c p, qcount n (q s) (Registered c p) + dcount (disp s) (Registered c p) = count_reg c p h /\
+                qcount n (q s) (Unregistered c p) + dcount (disp s) (Unregistered c p) = cntp c p (unregd s).
+Proof. exact valid_announce. Qed.
+Print Assumptions C07_announce_valid.
+
+Theorem C07_no_delivery_outside_tree_valid : forall n h, valid n h init ->
+  exists s, run n h init = Ok s /\ forall d, In d (disp s) -> d_ok d = true.
+Proof. exact valid_deliveries. Qed.
+Print Assumptions C07_no_delivery_outside_tree_valid.
+
+(* a register op at the end of a valid history succeeds, migrates the queue and moves the subtree as a whole
+   (C07_queue_migrates + C07_move_connected; the subtree reading of the precondition is op_pre itself) *)
+Theorem C07_register_valid : forall n h c p, valid n (h ++ [OReg c p]) init ->
+  exists s s', run n h init = Ok s /\ register n c p s = Ok s' /\
+    (rt s' c = rt s p /\ q s' (rt s p) = q s (rt s p) ++ q s c ++ [Registered c p] /\ q s' c = [] /\
+     (forall x, x <> c -> x <> rt s p -> q s' x = q s x)) /\
+    (par s' c = p /\ kid s' p c = true /\
+     (forall x, desc (kid s) c x ->
+        rt s' x = rt s p /\ desc (kid s') c x /\
+        (x <> c -> par s' x = par s x /\ kid s' (par s x) x = kid s (par s x) x)) /\
+     (forall x, ~ desc (kid s) c x -> rt s' x = rt s x /\ par s' x = par s x)).
+Proof. exact valid_register. Qed.
+Print Assumptions C07_register_valid.
+
+(* after a valid history the completion of any pending component succeeds and detaches its subtree as a whole *)
+Theorem C07_detach_valid : forall n h, valid n h init ->
+  exists s, run n h init = Ok s /\
+    forall c, pend s c = true ->
+    exists s', complete n c s = Ok s' /\
+      par s' c = c /\ pend s' c = false /\ kid s' (par s c) c = false /\
+      (forall x, desc (kid s) c x ->
+         rt s' x = c /\ desc (kid s') c x /\
+         (x <> c -> par s' x = par s x /\ kid s' (par s x) x = kid s (par s x) x)) /\
+      (forall x, ~ desc (kid s) c x -> rt s' x = rt s x /\ par s' x = par s x).
+Proof. exact valid_detach. Qed.
+Print Assumptions C07_detach_valid.
+
+(* a flush at the end of a valid history succeeds and dispatches exactly its batch *)
+Theorem C07_flush_valid : forall n h x sched, valid n (h ++ [OFlush x sched]) init ->
+  exists s s', run n h init = Ok s /\ flush n (rt s x) sched s = Ok s' /\
+    Permutation sched (q s (rt s x)) /\
+    exists ds, disp s' = ds ++ disp s /\ map d_ev (rev ds) = sched /\ (forall d, In d ds -> d_root d = rt s x).
+Proof. exact valid_flush. Qed.
+Print Assumptions C07_flush_valid.
+
 (* ------------------------------------------------------------------ non-vacuity *)
 
 (* 2 under 1 under 0; events queued on 3 before it is registered under 2; 1 is unregistered with its subtree
@@ -121,3 +197,7 @@ Example C07_ex_complete :
   | _ => False
   end.
 Proof. vm_compute. reflexivity. Qed.
+
+(* the validity hypothesis is satisfiable by the histories of the examples above *)
+Example C07_ex_valid : exists s, run 5 ex_hist init = Ok s.
+Proof. vm_compute. eexists. reflexivity. Qed.
